@@ -6,6 +6,7 @@
      spec <nearest> <ext> <xp> <erows> <arows> <np> <xs>  -> per x: np energies, np moments
      energy <nearest> <ext> <xp> <erows> <np> <xs>    -> per x: np energies
      var  <has_coord> <nearest> <xp> <rows> <np> <xs> -> rows of the returned variable
+     grid2 <nearest> <xp> <yp> <m rows [i][k]> <xs> <ys> -> for every y target, for every x target: value
    lists are  n v1 .. vn ; a value that may be NaN is written nan *)
 let rd_rows () = rd_list (fun () -> rd_list rd_ofloat)
 let cat l = String.concat " " l
@@ -63,5 +64,13 @@ let handle cmd =
       let np = rd_nat () in
       let xs = rd_list rd_float in
       cat (List.map (fun x -> cat (List.map pf (energy_interp1 xp erows x None nearest ext np))) xs)
+  | "grid2" ->
+      let nearest = rd_bool () in
+      let xp = rd_list rd_float in
+      let yp = rd_list rd_float in
+      let m = rd_rows () in
+      let xs = rd_list rd_float in
+      let ys = rd_list rd_float in
+      cat (List.map (fun r -> cat (List.map pof r)) (interp_grid2 xp yp m xs ys nearest))
   | _ -> "ERR unknown"
 let () = main_loop handle
